@@ -16,7 +16,7 @@ TECHNIQUE = (
     "rename, cleanup, final model write); then EVERY point is hit three times - by an injected OSError, by an injected KeyboardInterrupt (a BaseException that "
     "is not an Exception) and by killing a "
     "forked child with os._exit - and the directory is inspected against the old/new reference bytes; file-system points are "
-    "additionally hit with EXDEV/EBUSY followed by a second fault (exception, crash) at every effect point of the recovery path; "
+    "additionally hit with EXDEV/EBUSY/EACCES (raised as the OSError subclass Python maps the errno to) followed by a second fault (exception, crash) at every effect point of the recovery path; "
     "copies performed through shutil are executed stepwise (truncate / half / rest) so that their middle is a crash point"
 )
 LEVEL_TEXT = (
@@ -365,7 +365,7 @@ def execute(case):
                 label = labels[k]
                 if label.startswith(("tensor", "callback")):
                     continue
-                for eno in (_errno.EXDEV, _errno.EBUSY):
+                for eno in (_errno.EXDEV, _errno.EBUSY, _errno.EACCES):
                     tail, out1 = _run_injected(case, root, f"q{k}e{eno}", dict(target=k, mode="exc", errno_=eno, second="count"))
                     evals += 1
                     if out1 is None:
